@@ -28,51 +28,61 @@ crate::harnesses! {
     #[kani::stub(alloc::fmt::format, stub_format)]
     #[kani::stub(std::string::ToString::to_string, stub_to_string)]
     #[kani::stub(std::backtrace::Backtrace::capture, stub_backtrace_capture)]
+    #[kani::stub(<anyhow::Error as core::ops::Drop>::drop, stub_anyhow_drop)]
     #[kani::unwind(13)]
     c06_lenobj_simple0 (quick, "Codes::len / FuncCodeLen for Unary", "symbolic value") => len_objects::<_, {UNARY}>;
     #[kani::stub(alloc::fmt::format, stub_format)]
     #[kani::stub(std::string::ToString::to_string, stub_to_string)]
     #[kani::stub(std::backtrace::Backtrace::capture, stub_backtrace_capture)]
+    #[kani::stub(<anyhow::Error as core::ops::Drop>::drop, stub_anyhow_drop)]
     #[kani::unwind(13)]
     c06_lenobj_simple1 (quick, "Codes::len / FuncCodeLen for Gamma", "symbolic value") => len_objects::<_, {GAMMA}>;
     #[kani::stub(alloc::fmt::format, stub_format)]
     #[kani::stub(std::string::ToString::to_string, stub_to_string)]
     #[kani::stub(std::backtrace::Backtrace::capture, stub_backtrace_capture)]
+    #[kani::stub(<anyhow::Error as core::ops::Drop>::drop, stub_anyhow_drop)]
     #[kani::unwind(13)]
     c06_lenobj_simple2 (quick, "Codes::len / FuncCodeLen for Delta", "symbolic value") => len_objects::<_, {DELTA}>;
     #[kani::stub(alloc::fmt::format, stub_format)]
     #[kani::stub(std::string::ToString::to_string, stub_to_string)]
     #[kani::stub(std::backtrace::Backtrace::capture, stub_backtrace_capture)]
+    #[kani::stub(<anyhow::Error as core::ops::Drop>::drop, stub_anyhow_drop)]
     #[kani::unwind(13)]
     c06_lenobj_simple3 (quick, "Codes::len / FuncCodeLen for Omega", "symbolic value") => len_objects::<_, {OMEGA}>;
     #[kani::stub(alloc::fmt::format, stub_format)]
     #[kani::stub(std::string::ToString::to_string, stub_to_string)]
     #[kani::stub(std::backtrace::Backtrace::capture, stub_backtrace_capture)]
+    #[kani::stub(<anyhow::Error as core::ops::Drop>::drop, stub_anyhow_drop)]
     #[kani::unwind(13)]
     c06_lenobj_simple4 (quick, "Codes::len / FuncCodeLen for VByteBe", "symbolic value") => len_objects::<_, {VBYTE_BE}>;
     #[kani::stub(alloc::fmt::format, stub_format)]
     #[kani::stub(std::string::ToString::to_string, stub_to_string)]
     #[kani::stub(std::backtrace::Backtrace::capture, stub_backtrace_capture)]
+    #[kani::stub(<anyhow::Error as core::ops::Drop>::drop, stub_anyhow_drop)]
     #[kani::unwind(13)]
     c06_lenobj_zeta (quick, "Codes::len / FuncCodeLen for Zeta{k}", "k in 1..=10 symbolic, symbolic value") => len_objects::<_, {ZETA}>;
     #[kani::stub(alloc::fmt::format, stub_format)]
     #[kani::stub(std::string::ToString::to_string, stub_to_string)]
     #[kani::stub(std::backtrace::Backtrace::capture, stub_backtrace_capture)]
+    #[kani::stub(<anyhow::Error as core::ops::Drop>::drop, stub_anyhow_drop)]
     #[kani::unwind(13)]
     c06_lenobj_pi (quick, "Codes::len / FuncCodeLen for Pi{k}", "k in 0..=10 symbolic, symbolic value") => len_objects::<_, {PI}>;
     #[kani::stub(alloc::fmt::format, stub_format)]
     #[kani::stub(std::string::ToString::to_string, stub_to_string)]
     #[kani::stub(std::backtrace::Backtrace::capture, stub_backtrace_capture)]
+    #[kani::stub(<anyhow::Error as core::ops::Drop>::drop, stub_anyhow_drop)]
     #[kani::unwind(13)]
     c06_lenobj_golomb (quick, "Codes::len / FuncCodeLen for Golomb{b}", "b in 1..=10 symbolic, symbolic value") => len_objects::<_, {GOLOMB}>;
     #[kani::stub(alloc::fmt::format, stub_format)]
     #[kani::stub(std::string::ToString::to_string, stub_to_string)]
     #[kani::stub(std::backtrace::Backtrace::capture, stub_backtrace_capture)]
+    #[kani::stub(<anyhow::Error as core::ops::Drop>::drop, stub_anyhow_drop)]
     #[kani::unwind(13)]
     c06_lenobj_expgolomb (quick, "Codes::len / FuncCodeLen for ExpGolomb{k}", "k in 0..=10 symbolic, symbolic value") => len_objects::<_, {EXP_GOLOMB}>;
     #[kani::stub(alloc::fmt::format, stub_format)]
     #[kani::stub(std::string::ToString::to_string, stub_to_string)]
     #[kani::stub(std::backtrace::Backtrace::capture, stub_backtrace_capture)]
+    #[kani::stub(<anyhow::Error as core::ops::Drop>::drop, stub_anyhow_drop)]
     #[kani::unwind(13)]
     c06_lenobj_rice (quick, "Codes::len / FuncCodeLen for Rice{log2_b}", "log2_b in 0..=10 symbolic, symbolic value") => len_objects::<_, {RICE}>;
 }
